@@ -267,7 +267,13 @@ def _was_used(f, case, inv):
             e.edge == where and e.op == "rp" and e.tok.triggered for e in f.ledger if e.tok is not None) and False
     if kind == "negative_delay_node":
         ins = [e["id"] for e in case["edges"] if e["dst"] == where]
-        return any(e.edge in ins and e.op == "get" and e.exc is None for e in f.ledger)
+        pulled = sum(1 for e in f.ledger if e.edge in ins and e.op == "get" and e.exc is None)
+        node = next(n for n in case["nodes"] if n["id"] == where)
+        if node["type"] == "Combiner":
+            # a combiner draws its delay only when a pallet and all its ingredients have been pulled
+            need = 1 + sum(node.get("recipe", [1])[1:len(ins)])
+            return pulled >= need
+        return pulled >= 1
     if kind.startswith("const_index_out_of_range"):
         # reset() validates constants before the first item: always "used" once the node has started
         return True
